@@ -45,7 +45,7 @@ func checkC17(r *Run) {
 	r.Rule("C17.R3.tableonly", "no free gorp.NewCreate/NewUpdate/NewDelete/WrapWriter is instantiated with an entry type whose table has secondary indexes", 3)
 	r.Rule("C17.R4.hooks", "tx.Commit runs cleanups(err == nil) after the underlying commit, tx.Close runs cleanups(false); the overlay cleanup deletes the tx's delta and flushes only on commit", 4)
 	r.Rule("C17.R5.GUARD", "committed index state (LookupIndex.forward/reverse, SortedIndex.entries/reverse, deltaOverlay.txDeltas, txState.cleanups) is accessed under its mutex", 20)
-	r.Rule("C17.R5.populate", "OpenTable starts every index's populate (which takes the index lock) before attaching the change observer", 1)
+	r.Rule("C17.R5.populate", "OpenTable starts every index's populate (which takes the index lock) before attaching the change observer, and opens the bulk scan / starts the populate routine only after it", 2)
 	r.Rule("C17.ERR", "no error returned by a call is discarded in x/gorp except the tabled sites (a swallowed row or index error desynchronises table and index)", 1)
 	r.Rule("C17.R8.fresh", "every value gorp decodes a stored or observed entry into is fresh for that entry (declared inside the per-entry loop, never a longer-lived field): the codecs merge into their target, so an entry with an empty indexed field would inherit the previous entry's value and land in the wrong index bucket", 3)
 	r.Rule("C17.R9.append", "no append in x/gorp extends a slice held in a field of a shared object (table key prefix, builder state) unless the result is stored back into that field: otherwise concurrent scans write their key prefixes into one backing array and read each other's rows", 1)
@@ -427,6 +427,65 @@ func checkIndexGuards(r *Run, p *Prog) {
 		}
 	}
 	r.ObPath("C17.R5.populate", "OpenTable starts every index's populate before it attaches the change observer", p.Position(acalls[0].Pos()), ok, "populate takes the index lock: an observer attached first could apply a replicated write that the bulk scan then overwrites with the older row", path)
+	// ... and the bulk scan is opened only after the observer is attached: a snapshot taken
+	// before the subscription misses every write committed in between, and so does the
+	// observer
+	isScanOpen := func(fn *FuncNode, n ast.Node) bool {
+		return nodeHasCall(fn, n, func(o types.Object, _ *ast.CallExpr) bool {
+			f, ok := o.(*types.Func)
+			return ok && (f.Name() == "OpenNexter" || f.Name() == "OpenIterator") && f.Pkg() != nil && strings.HasSuffix(f.Pkg().Path(), gorpPkg)
+		})
+	}
+	runPop := p.Func(gorpPkg, "Table", "runPopulate")
+	startsScan := func(n ast.Node) bool {
+		if isScanOpen(open, n) {
+			return true
+		}
+		hit := false
+		ast.Inspect(n, func(y ast.Node) bool {
+			switch v := y.(type) {
+			case *ast.CallExpr:
+				if f := CalleeFunc(open, v); f != nil && runPop != nil && f == runPop.Obj {
+					hit = true
+				}
+				if f := CalleeFunc(open, v); f != nil && (f.Name() == "OpenNexter" || f.Name() == "OpenIterator") {
+					hit = true
+				}
+			}
+			return true
+		})
+		return hit
+	}
+	starts := c.NodesWhere(startsScan)
+	q3, vis3 := c.ReachAvoiding([]Point{c.Entry()}, nil, func(n ast.Node) bool { return contains(n, acalls[0]) })
+	okScan := len(starts) > 0
+	var pathScan []string
+	for _, sp := range starts {
+		if vis3[sp] {
+			okScan = false
+			pathScan = q3.PathTo(sp)
+		}
+	}
+	if runPop != nil {
+		scanInPop := false
+		inspectNoLit(runPop.Body, func(n ast.Node) bool {
+			if isScanOpen(runPop, n) {
+				scanInPop = true
+			}
+			return true
+		})
+		for _, l := range runPop.Lits {
+			inspectNoLit(l.Body, func(n ast.Node) bool {
+				if isScanOpen(l, n) {
+					scanInPop = true
+				}
+				return true
+			})
+		}
+		_ = scanInPop
+	}
+	r.ObPath("C17.R5.populate", "the populate scan is opened (or the populate routine started) only after the change observer is attached", p.Position(acalls[0].Pos()), okScan,
+		"a scan snapshot taken before the subscription: a write committed in between is in neither the snapshot nor the observer's stream and never reaches the index", pathScan)
 }
 
 func checkDeltaAndObserver(r *Run, p *Prog) {
